@@ -1018,7 +1018,9 @@ public:
             bool isLambdaOp = false;
             if (auto const* md0 = dyn_cast<CXXMethodDecl>(fd)) isLambdaOp = md0->getParent()->isLambda();
             std::string fileName = fileOf(fd->getLocation());
-            bool underRepo = fileName.compare(0, 6, "/repo/") == 0;
+            // the repository is the first --root (the checks pass /repo/; developer tools may point at a scratch copy)
+            std::string const repoRoot = g_opt.roots.empty() ? std::string("/repo/") : g_opt.roots[0];
+            bool underRepo = fileName.compare(0, repoRoot.size(), repoRoot) == 0;
             if (closureFns.count(fd) ||
                 (!g_opt.known.empty() && underRepo && !isLambdaOp && !fd->isImplicit() && !fd->isDefaulted() &&
                     job.parent < 0 && !g_opt.known.count(job.qname)))
